@@ -206,6 +206,24 @@ def place_batch(files, variants):
 
 
 
+def corner_cases():
+    """deterministic files: the XML before the sections and a compressed vector as the last section ending
+    exactly at the end of the last page payload (logical stream = 1020 bytes): once with no record and no packet
+    (data offset = physical size of the file), once with one point"""
+    out = []
+    for types, pts, packets in ((["F"], [], []), (["F"], [["f3f800000"]], [("D", [4])]), (["I/5/5", "D"], [], [("I", 16), ("D", [0, 0])])):
+        entries = [("X",), ("P", 0, types, pts, packets)]
+        names = [["cartesianX", "cartesianY"][:len(types)]]
+        target = 1020 - 48 - specgen.entry_len(entries[1], 0)
+        st, end = specgen.starts(entries, target)
+        offs = [specgen.phys_of_log(x) for x in st]
+        xml = specgen.make_xml(entries, offs, names)
+        xml = xml + b"\n" * (target - len(xml))
+        out.append((entries, xml, offs, spec_line(entries, xml), None, dict(names=names, prefix=None, pair=None, cls="c03-empty-vector-at-file-end")))
+    return out
+
+
+
 def process(rep, impl, impl_rel, cases, acc, allow_cross):
     """one batch: cases = [(entries | None, xml, offs, SPECENC line, replay | None, extra)];
     extra = dict(names=, prefix=, pair=) (pair: files of the same scene in different renderings)"""
@@ -231,12 +249,9 @@ def process(rep, impl, impl_rel, cases, acc, allow_cross):
                           dict(kind="spec-file", spec_line=line, xml=xml.hex(), offs=offs), no_input=True)
             continue
         if f["followed"] == "0":
-            # a compressed vector followed by nothing at all at the end of the last page is outside the theorem
-            # (Proofs/SpecReader.v); the reader is still expected to read it unless the vector has no packet at all
-            # (then data_offset = end of file and the seek fails: reported finding, excluded here)
+            # a compressed vector followed by nothing at all at the end of the last page (the reader once failed
+            # on an empty one there, /repo 2adadd6): read like every other file
             stats["unfollowed"] += 1
-            if entries is None or any(e[0] == "P" and not e[4] for e in entries):
-                continue
         stats["files"] += 1
         stats["bytes"] += int(f["len"])
         filehex = f["file"]
@@ -250,7 +265,7 @@ def process(rep, impl, impl_rel, cases, acc, allow_cross):
         small = int(f["len"]) <= 40 * 1024
         sess_small.append("SESS - %s %s" % (filehex, " ".join(ops_all)) if small else None)
         meta.append(dict(line=line, xml=xml, offs=list(offs), exp_rd=exp_rd, exp_se=exp_se, ops=ops, ops_all=ops_all, filehex=filehex,
-                         exp_meta=exp_meta, pair=(extra or {}).get("pair")))
+                         exp_meta=exp_meta, pair=(extra or {}).get("pair"), cls=(extra or {}).get("cls")))
         if entries:
             pos = [k for k, e in enumerate(entries) if e[0] == "X"][0]
             stats["xml_first" if pos == 0 and len(entries) > 1 else "xml_last" if pos == len(entries) - 1 else "xml_middle"] += 1
@@ -290,7 +305,7 @@ def process(rep, impl, impl_rel, cases, acc, allow_cross):
             if got != exp:
                 acc["n_dir"] += 1
                 failed.add(k)
-                cls = classify(exp, got)
+                cls = m["cls"] or classify(exp, got)
                 rep.violation(cls, "the reader does not return what the specification-driven encoder encoded (%s): expected [%s] got [%s]; layout %s" %
                               (what, exp[:220], got[:220], m["line"][m["line"].index(" ", 8):][:300]),
                               dict(kind="spec-file", spec_line=m["line"], xml=m["xml"].hex(), offs=m["offs"], file=m["filehex"],
@@ -302,7 +317,7 @@ def process(rep, impl, impl_rel, cases, acc, allow_cross):
             failed.add(k)
             ge, gg = m["exp_meta"].split(), a_meta[k].split()
             diff = next(("%s != %s" % (a, b) for a, b in zip(ge, gg) if a != b), "length %d != %d" % (len(ge), len(gg)))
-            rep.violation("c03-metadata", "the metadata the reader exposes is not what was encoded (first difference: expected %s); XML %s" %
+            rep.violation(m["cls"] or "c03-metadata", "the metadata the reader exposes is not what was encoded (first difference: expected %s); XML %s" %
                           (diff[:200], m["xml"][:400].decode(errors="replace").replace("\n", " ")),
                           dict(kind="spec-file", spec_line=m["line"], xml=m["xml"].hex(), offs=m["offs"], file=m["filehex"],
                                expected_rd=m["exp_rd"], expected_sess=m["exp_se"], ops=m["ops"], ops_all=m["ops_all"], expected_meta=m["exp_meta"]))
@@ -357,6 +372,7 @@ def run(rep, tier, rng, replay=None):
     if replay and replay.get("kind") == "spec-file":
         process(rep, impl, impl_rel, [(None, bytes.fromhex(replay["xml"]), replay["offs"], replay["spec_line"], replay, None)], acc, False)
     else:
+        process(rep, impl, impl_rel, corner_cases(), acc, False)
         files = gen_files(rng, tier)
         batch = 400
         for b in range(0, len(files), batch):
